@@ -6,7 +6,7 @@ from ..core import unhx
 
 THEOREMS = ['events_errors', 'error_line_exact', 'errors_in_file_order', 'message_quotes_line', 'book_fails_first', 'walk_fails_first', 'csv_database_fails_first', 'lint_lists_all']
 LEVEL = 'proof'
-RULE = ('k in 0..4 malformed lines (no blank before the value / value not a number) planted inside records of generated well-formed files '
+RULE = ('k in 0..4 (6 % of the files: 20..64) malformed lines (no blank before the value / value not a number) planted inside records of generated well-formed files '
         '(blank lines, comments, notes, CRLF, one comment or note line of 4 to 60 KB, a CRLF pair across the 4096-byte refill of the line reader) x every file-reading command x lint with and without --silent; '
         'non-trivial = k >= 1 and the first planted line is not line 2; distinct by file hash')
 ASSUMPTIONS = ["lint's exit status on a file with errors is not asserted (the statement gives lint its own clause)"]
@@ -111,11 +111,12 @@ def gen(g, count):
         book = g.book(depth=r.choice([0, 1, 2]), exact=True, unusual=0.2)
         if len(spec.book_map(book)) != len(book):
             continue
-        log = g.log(book=book, exact=True, unusual=0.2, days=r.randint(1, 4))
+        many = r.random() < 0.06          # a file with dozens of malformed lines: every one of them is listed
+        log = g.log(book=book, exact=True, unusual=0.2, days=r.randint(1, 4) if not many else r.randint(20, 30))
         db_recs = [g.render_record(n, ings, (), True) for n, ings in book]
         log_recs = [g.render_record(d.strftime('%Y/%m/%d').encode(), ents, ns, True) for d, ents, ns in log]
-        k = r.choice([0, 1, 1, 2, 3, 4])
-        which = r.choice(['db', 'log'])
+        k = r.choice([0, 1, 1, 2, 3, 4]) if not many else r.choice([20, 21, 22, 33, 64])
+        which = r.choice(['db', 'log']) if not many else 'log'
         crlf = r.random() < 0.3
         dbdata, dbmsgs = build_file(g, db_recs, k if which == 'db' else 0, crlf)
         logdata, logmsgs = build_file(g, log_recs, k if which == 'log' else 0, crlf)
